@@ -1,1 +1,1 @@
-def indicesUsesFftshiftTilt : Bool := true
+def indicesUsesFftshiftTilt : Bool := false
